@@ -454,7 +454,7 @@ Lemma Ext_qrule : forall o l endp st,
   convert_host o = false -> w_using_low st = false -> skip_ws l <> [] ->
   Consumes o l (fst (qrule o l endp st)) st (snd (qrule o l endp st)).
 Proof.
-  intros o l endp st Hs Hh H Hne. unfold qrule. rewrite Hh.
+  intros o l endp st Hs Hh H Hne. unfold qrule, qr_main. rewrite Hh.
   apply Consumes_skip; [exact Hs | apply Ext_qr_loop; [apply skip_ws_shaped; exact Hs | exact H] | exact Hne].
 Qed.
 
@@ -524,8 +524,8 @@ Proof.
   intros o rec l endp at_start st rest st' Hsh Hi Hrec H E. unfold at_rule in E.
   destruct l as [|x r]; [discriminate|]. destruct x as [t p|? ? ? ? ?]; [|discriminate].
   destruct t; try discriminate.
-  replace (if str_eqb s s_import then import_sign o else None) with (@None str) in E
-    by (rewrite Hi; destruct (str_eqb s s_import); reflexivity).
+  replace (if str_eqb_ci s s_import then import_sign o else None) with (@None str) in E
+    by (rewrite Hi; destruct (str_eqb_ci s s_import); reflexivity).
   inversion E as [E']; clear E.
   assert (Hrec' : forall body be s0, (nodes_size body < nodes_size r)%nat -> shaped body = true -> w_using_low s0 = false ->
                                      Ext o (strip (flatten body)) s0 (rec body be s0)).
@@ -551,7 +551,7 @@ Proof.
   destruct (skip_ws l) as [|x r] eqn:El.
   { rewrite Epre, app_nil_r, Spre. apply Ext_refl; exact H. }
   assert (Hrec : forall body be s, (nodes_size body < nodes_size (x :: r))%nat -> shaped body = true -> w_using_low s = false ->
-                                   Ext o (strip (flatten body)) s (rules f o body be true s)).
+                                   Ext o (strip (flatten body)) s (rules f o body be false s)).
   { intros body be s Hs Hb Hu. apply IH; [exact Hb | exact Hi | exact Hh | lia | exact Hu]. }
   assert (Fin : forall rest st1, Consumes o (x :: r) rest st st1 -> forall b,
                 Ext o (strip (flatten l)) st (rules f o rest endp b st1)).
@@ -559,7 +559,7 @@ Proof.
     rewrite E, flatten_app, strip_app. eapply Ext_trans; [exact Hc|].
     apply IH; [rewrite E in Hsl; apply (shaped_app _ _ Hsl) | exact Hi | exact Hh | | eapply (Ext_using_low o); exact Hc].
     destruct Hp as [Hp|Hp]; [discriminate | lia]. }
-  destruct (at_rule o (fun body be s => rules f o body be true s) (x :: r) endp at_start st) as [[rest st1]|] eqn:Ea.
+  destruct (at_rule o (fun body be s => rules f o body be false s) (x :: r) endp at_start st) as [[rest st1]|] eqn:Ea.
   - apply Fin. eapply Ext_at_rule; [exact Hsl | exact Hi | exact Hrec | exact H | exact Ea].
   - pose proof (Ext_qrule o (x :: r) endp st Hsl Hh H) as Hq.
     assert (Hne : skip_ws (x :: r) <> []).
